@@ -139,15 +139,42 @@ def run(pid, tier, seed, args, t0):
             native = dict(error=traceback.format_exc(), functions={}, evaluations=0)
         for fk, fr in native.get('functions', {}).items():
             for f in fr.get('failures', []): f['function'] = fk; native_fail.append(f)
+        # property-specific scenario explorer on the real code (bounded stand-in; histories / schedules)
+        if hasattr(mod, 'scenarios') and not args.only:
+            try:
+                sc = mod.scenarios(tier, seed, REPO, os.path.join(ROOT, 'out', pid))
+                native['evaluations'] = native.get('evaluations', 0) + sc.get('evaluations', 0)
+                native['scenarios'] = {k: v for k, v in sc.items() if k != 'failure'}
+                if sc.get('failure'):
+                    native_fail.append(dict(kind='scenario', clause=sc.get('clause', 'property statement on a concrete history'), function='scenario:' + pid, inputs=sc['failure']))
+            except Exception:
+                native['error'] = traceback.format_exc()
     # ---- known findings
     known = load_known(pid); known_lines = []
     def is_known(desc):
         for k in known:
+            if 'match' not in k: continue
             if k['match'].get('function') and k['match']['function'] not in desc.get('function', ''): continue
             if k['match'].get('obligation') and k['match']['obligation'] != desc.get('id'): continue
             if k['match'].get('clause') and k['match']['clause'] != desc.get('clause'): continue
             return k
         return None
+    # recorded open findings: re-run each witness on the real code; it must still fail to be reported as KNOWN-FINDING
+    kf_notes = []
+    for k in known:
+        if not k.get('witness_cmd') or args.only: continue
+        env = dict(os.environ); env['PYTHONPATH'] = '%s:%s:%s' % (os.path.join(ROOT, 'stubs'), REPO, ROOT); env['VERIF_REPO'] = REPO
+        try:
+            pr = subprocess.run(['/venv/bin/python', os.path.join(ROOT, k['witness_cmd'][0])] + k['witness_cmd'][1:], capture_output=True, text=True, env=env, cwd=REPO, timeout=600)
+            if pr.returncode == 1:
+                known_lines.append('KNOWN-FINDING: property=%s %s [%s]' % (pid, k['summary'], k['id']))
+                kf_notes.append(dict(id=k['id'], reproduced=True, output=pr.stdout.strip()[-400:]))
+            elif pr.returncode == 0:
+                kf_notes.append(dict(id=k['id'], reproduced=False, note='witness no longer fails on this tree: entry can be retired'))
+            else:
+                kf_notes.append(dict(id=k['id'], reproduced=None, error=(pr.stderr or pr.stdout)[-600:]))
+        except Exception as e:
+            kf_notes.append(dict(id=k['id'], reproduced=None, error=repr(e)))
     # ---- verdict
     violations = []
     for o in failed:
@@ -160,7 +187,7 @@ def run(pid, tier, seed, args, t0):
         if rep is None:
             # any native failure of the same function counts as a replayable witness for it
             for f in native_fail:
-                if f['function'] == o.get('function'): rep = dict(reproduced=True, failure=f, via='bounded stand-in'); break
+                if f['function'] == o.get('function') or f['function'].startswith('scenario:'): rep = dict(reproduced=True, failure=f, via='bounded stand-in'); break
         if rep is None and hasattr(mod, 'find_witness'):
             rep = mod.find_witness(w, o, native)
         path = os.path.join(outdir, 'replay', _safe(o['id']) + '.json')
@@ -170,6 +197,7 @@ def run(pid, tier, seed, args, t0):
     seen_native = set()
     for f in native_fail:
         if any(v[0].get('function') == f['function'] for v in violations): continue
+        if f['function'].startswith('scenario:') and violations: continue     # already attached as the witness of the failed obligations
         k = is_known(dict(function=f['function'], clause=f.get('clause')))
         if k: known_lines.append('KNOWN-FINDING: property=%s %s' % (pid, k['summary'])); continue
         if f['function'] in seen_native: continue
@@ -197,7 +225,7 @@ def run(pid, tier, seed, args, t0):
                                                   failures=len(native_fail), error=native.get('error'),
                                                   per_function={k: dict(evaluations=v.get('evaluations'), exhaustive_small_scope=v.get('exhaustive_small_scope'), skipped=v.get('skipped')) for k, v in native.get('functions', {}).items()},
                                                   unrolled_loops=bounded),
-                            known_finding_splits=[k['id'] for k in known]),
+                            known_finding_splits=[k['id'] for k in known], known_finding_witnesses=kf_notes),
               assumptions=sorted(assumptions), wall_s=round(wall, 2), violations=len(violations))
     if hasattr(mod, 'evidence_hook'): mod.evidence_hook(ev, w, results, extra)
     os.makedirs(os.path.join(ROOT, 'evidence'), exist_ok=True)
